@@ -21,7 +21,11 @@
 //!            that returned `Some`; the optional fields (floating-point details, first `fl` calls) are
 //!            described where they are printed
 //!          | `E`                       `next()` returned `None` (converged)
-//!          | `P`                       construction or `next()` panicked (ends the trace)
+//!          | `P;at=<file>;msg=<message>;rw=<words>`  construction or `next()` panicked (ends the trace):
+//!            base name of the source file and message of the panic (non-alphanumerics replaced by `_`),
+//!            the words the generator handed out before the panic
+//!   `rw=` (on `I`, `S` and `P` records) lists every word the generator handed out during the construction /
+//!   the call, in order, as `<width>:<value>` (64 = next_u64, 32 = next_u32), `-` when none.
 //!   state = `n;cm;bg;active;astarts;starts` with
 //!     n       = count_matrix().sequence_count()
 //!     cm      = cells of count_matrix(), one base-36 digit per cell (`(v)` when v >= 36), rows joined by `/`
@@ -107,6 +111,50 @@ impl RngCore for LogRng {
         self.fill_bytes(dest);
         Ok(())
     }
+}
+
+/// rw= : every word the generator handed out, in order, tagged with the width asked for
+/// (`64:<u64>` = next_u64, `32:<u32>` = next_u32, `8:<n>` = fill_bytes of n bytes), `-` when none.
+fn show_words(words: &[(u8, u64)]) -> String {
+    if words.is_empty() {
+        "-".to_string()
+    } else {
+        words.iter().map(|w| format!("{}:{}", w.0, w.1)).collect::<Vec<_>>().join(",")
+    }
+}
+
+thread_local! {
+    /// file (base name) and message of the last panic on this thread, recorded by the panic hook
+    static LAST_PANIC: RefCell<(String, String)> = RefCell::new((String::new(), String::new()));
+}
+
+fn sanitize(s: &str, n: usize) -> String {
+    s.chars().take(n).map(|c| if c.is_ascii_alphanumeric() || c == '.' { c } else { '_' }).collect()
+}
+
+/// Panic messages stay silenced, but the source file and the message of the last panic are kept:
+/// a `P` record carries them (`at=<file>;msg=<message>`) so that the driver can require that the
+/// model panics at the SAME documented site.
+fn record_panics() {
+    std::panic::set_hook(Box::new(|info| {
+        let file = info
+            .location()
+            .map(|l| l.file().rsplit(|c| c == '/' || c == '\\').next().unwrap_or("").to_string())
+            .unwrap_or_default();
+        let msg = if let Some(s) = info.payload().downcast_ref::<&str>() {
+            s.to_string()
+        } else if let Some(s) = info.payload().downcast_ref::<String>() {
+            s.clone()
+        } else {
+            "?".to_string()
+        };
+        LAST_PANIC.with(|p| *p.borrow_mut() = (sanitize(&file, 40), sanitize(&msg, 70)));
+    }));
+}
+
+fn panic_record(words: &[(u8, u64)]) -> String {
+    let (file, msg) = LAST_PANIC.with(|p| p.borrow().clone());
+    format!("P;at={};msg={};rw={}", file, msg, show_words(words))
 }
 
 fn bits32(m: &DenseMatrix<f32, impl generic_array::ArrayLength>) -> String {
@@ -335,17 +383,19 @@ macro_rules! impl_run {
                 Some(s) => s,
                 None => {
                     lightmotif::pli::verif::force_backend(None);
-                    return (pre, vec!["P".to_string()], wts, pssm_ok);
+                    let rec = panic_record(&rlog.borrow());
+                    return (pre, vec![rec], wts, pssm_ok);
                 }
             };
-            trace.push(format!("I;{}", state(&s)));
+            // rw= : the words consumed by the construction (initial starts, then index::sample in Zoops mode)
+            trace.push(format!("I;{};rw={}", state(&s), show_words(&rlog.borrow())));
             for _ in 0..steps {
                 let before_active = s.active_sequences();
                 let before_starts = s.verif_starts().to_vec();
                 rlog.borrow_mut().clear();
                 match no_panic(|| s.next()) {
                     None => {
-                        trace.push("P".to_string());
+                        trace.push(panic_record(&rlog.borrow()));
                         break;
                     }
                     Some(None) => {
@@ -401,7 +451,12 @@ macro_rules! impl_run {
                         // r= : the words the generator handed out during the call (count:last u64)
                         let words = rlog.borrow();
                         let last64 = words.iter().rev().find(|w| w.0 == 64).map(|w| w.1.to_string());
-                        let mut extra = format!(";r={}:{}", words.len(), last64.unwrap_or_else(|| "-".to_string()));
+                        let mut extra = format!(
+                            ";r={}:{};rw={}",
+                            words.len(),
+                            last64.unwrap_or_else(|| "-".to_string()),
+                            show_words(&words)
+                        );
                         drop(words);
                         if it.step < fl && it.z < copies.len() {
                             let z = it.z;
@@ -499,7 +554,7 @@ fn annotate(f: &HashMap<String, String>) -> String {
     for r in &trace {
         let p: Vec<&str> = r.split(';').collect();
         let cur = match p[0] {
-            "I" if p.len() == 7 => (p[4].to_string(), p[6].to_string()),
+            "I" if p.len() >= 7 => (p[4].to_string(), p[6].to_string()),
             "S" if p.len() >= 11 => (p[8].to_string(), p[10].to_string()),
             _ => continue,
         };
@@ -723,6 +778,7 @@ fn main() {
         }
         "run" => {
             silence_panics();
+            record_panics();
             for line in stdin_lines() {
                 let (_id, f) = fields(&line);
                 let obs = run_case(&f);
